@@ -694,6 +694,25 @@ func streamLifecycle(g *G) { // C03
 			g.manualTraceFamily(rid)
 			rid++
 		}
+		if g.chance(0.2) {
+			// a literal that starts with an unclosed brace ("/{draft" is plain text) next to parameter siblings under a node with
+			// a first-byte index: Remove/URL look the parameter routes up by their text, the index byte '{' belongs to the literal
+			g.routerLine(rid, routerOpt{name: "brace"})
+			for i, p := range []string{"/alpha", "/beta", "/gamma", "/delta", "/{draft", "/{id}", "/{id}/x"}[:5+g.intn(3)] {
+				g.emit("handle %d %s %d %%- %s", rid, encB(p), i+1, encL([]string{"GET", "POST"}))
+			}
+			g.emit("routes %d", rid)
+			g.emit("remove %d %s %s", rid, encB("/{id}"), encL([]string{"POST"}))
+			g.emit("routes %d", rid)
+			for _, q := range [][2]string{{"POST", "/57"}, {"GET", "/57"}, {"GET", "/{draft"}, {"GET", "/alpha"}} {
+				g.serveLine("serve", rid, q[0], q[1], "", nil)
+			}
+			g.emit("remove %d %s %%-", rid, encB("/{id}"))
+			g.emit("routes %d", rid)
+			g.serveLine("serve", rid, "GET", "/57", "", nil)
+			g.emit("url %d 1 %s %s", rid, encB("/{id}/x"), encKVs([]kv{{"id", "5"}}))
+			rid++
+		}
 		if g.chance(0.35) {
 			// an interior pattern (a longer route lives below it) loses its last method BY NAME — the node stays, with an empty
 			// table — and is registered again: it is a live route again, with its automatic OPTIONS/405 entries
